@@ -625,6 +625,10 @@ class Eval:
         name = n["name"]
         if callee in self.summaries:
             return self.summaries[callee](self, n)
+        if callee in self.c.fns:
+            r = self.inline_local(callee, [n["recv"]] + list(n["args"]), n)
+            if r is not None:
+                return r
         recv = self.eval(n["recv"])
         args = [self.eval(a) for a in n["args"]]
         base = callee.rsplit("::", 1)[0]
@@ -648,10 +652,34 @@ class Eval:
             return self.fmath(name, recv, args, n)
         raise ValueError("E2: unsupported method call %s (%s)" % (callee, short(pretty(n), 80)))
 
+    def inline_local(self, callee, arg_nodes, n):
+        callee = callee[5:] if callee.startswith("Self:") else callee
+        fn = self.c.fns.get(callee)
+        if fn is None or getattr(self, "depth", 0) > 3 or fn.get("output") not in ("f32", "f64", "usize", "bool", "i32"):
+            return None
+        if len(fn["params"]) != len(arg_nodes):
+            return None
+        env = {}
+        for p_, a_ in zip(fn["params"], arg_nodes):
+            while p_.get("k") in ("ref", "deref"):
+                p_ = p_["p"]
+            if p_.get("k") != "bind":
+                return None
+            if p_["name"] == "self":
+                continue
+            env[p_["hid"]] = self.eval(a_)
+        sub = Eval(self.c, env, self.fields, self.ob, self.summaries, self.sym_of)
+        sub.depth = getattr(self, "depth", 0) + 1
+        sub.some = self.some
+        return sub.eval(fn["body"])
+
     def call(self, n):
         callee = n["callee"]
         if callee in self.summaries:
             return self.summaries[callee](self, n)
+        r = self.inline_local(callee, n["args"], n)
+        if r is not None:
+            return r
         args = [self.eval(a) for a in n["args"]]
         base, name = callee.rsplit("::", 1) if "::" in callee else ("", callee)
         if "f32" in base or "f64" in base:
